@@ -1,7 +1,308 @@
 package main
 
-import "verifharness/lib"
+// The real IP listener (server.StartIPServer with a real ntske.Provider) on a
+// loopback address of this process.  Honest NTS requests are built exactly as
+// the client does (cookie sealed under provider.Current(), NewRequestPacket,
+// EncodePacket) and delivered unchanged and mutated; "no reply" is decided by a
+// plain 48-byte sentinel request sent afterwards from the same socket (the
+// listener goroutine that owns this 4-tuple answers in order).
 
-func extraCases(r *lib.Rng, thorough bool) {}
+import (
+	"context"
+	"encoding/binary"
+	"fmt"
+	"log/slog"
+	"net"
+	"os"
+	"time"
 
-func replayExtra(c [3]string) {}
+	"example.com/scion-time/core/server"
+	"example.com/scion-time/core/timebase"
+	"example.com/scion-time/net/nts"
+	"example.com/scion-time/net/ntske"
+
+	"verifharness/lib"
+)
+
+type sysClock struct{}
+
+func (sysClock) Epoch() uint64                                    { return 0 }
+func (sysClock) Now() time.Time                                   { return time.Now().UTC() }
+func (sysClock) Drift(d time.Duration) time.Duration              { return 0 }
+func (sysClock) Step(offset time.Duration)                        {}
+func (sysClock) Adjust(offset, duration time.Duration, f float64) {}
+func (sysClock) Sleep(d time.Duration)                            { time.Sleep(d) }
+
+const (
+	lsnPort      = 21010
+	sentinelSecs = 0x5E471E10
+)
+
+type lsn struct {
+	provider *ntske.Provider
+	dst      *net.UDPAddr
+	conn     *net.UDPConn
+	seq      uint32
+	lost     bool
+}
+
+var theLsn *lsn
+
+func getLsn() *lsn {
+	if theLsn != nil {
+		return theLsn
+	}
+	l := &lsn{}
+	timebase.RegisterClock(sysClock{})
+	setTape()
+	l.provider = ntske.NewProvider()
+	pid := os.Getpid()
+	ip := net.IPv4(127, 10, byte(pid>>8), byte(pid))
+	l.dst = &net.UDPAddr{IP: ip, Port: lsnPort}
+	server.StartIPServer(context.Background(), slog.New(slog.DiscardHandler), l.dst, 0, l.provider)
+	c, err := net.ListenUDP("udp4", &net.UDPAddr{IP: ip, Port: 0})
+	if err != nil {
+		panic(err)
+	}
+	c.SetReadBuffer(1 << 20)
+	l.conn = c
+	theLsn = l
+	return l
+}
+
+// probe sends pkt, then a sentinel, and returns the datagrams received before
+// the sentinel's answer.
+func (l *lsn) probe(pkt []byte) (replies [][]byte) {
+	if l.lost {
+		return nil
+	}
+	l.seq++
+	s := make([]byte, 48)
+	s[0] = 4<<3 | 3
+	binary.BigEndian.PutUint32(s[40:], sentinelSecs)
+	binary.BigEndian.PutUint32(s[44:], l.seq)
+	if _, err := l.conn.WriteToUDP(pkt, l.dst); err != nil {
+		panic(err)
+	}
+	buf := make([]byte, 4096)
+	deadline := time.Now().Add(30 * time.Second)
+	for attempt := 0; attempt < 3; attempt++ {
+		if _, err := l.conn.WriteToUDP(s, l.dst); err != nil {
+			panic(err)
+		}
+		l.conn.SetReadDeadline(time.Now().Add(10 * time.Second))
+		for {
+			n, _, err := l.conn.ReadFromUDP(buf)
+			if err != nil {
+				break
+			}
+			d := append([]byte(nil), buf[:n]...)
+			if n == 48 && binary.BigEndian.Uint32(d[24:]) == sentinelSecs && binary.BigEndian.Uint32(d[28:]) == l.seq {
+				return replies
+			}
+			if n == 48 && binary.BigEndian.Uint32(d[24:]) == sentinelSecs {
+				continue // answer to an earlier (repeated) sentinel
+			}
+			replies = append(replies, d)
+		}
+		if time.Now().After(deadline) {
+			break
+		}
+	}
+	l.lost = true
+	fmt.Println("NOTE c10: a sentinel request to the IP listener went unanswered; listener cases stopped")
+	return replies
+}
+
+// srvCase delivers b to the listener and records the case.  h is the honest
+// request b was derived from; s its session (S2C key and identifier verify the reply).
+func (l *lsn) srvCase(tags string, hs []*honest, b []byte, s2c []byte) {
+	if l.lost {
+		return
+	}
+	// AEAD answers for the model, computed through the real decoding steps
+	var ents []string
+	func() {
+		defer func() { recover() }()
+		var pkt nts.Packet
+		if nts.DecodePacket(&pkt, b) != nil {
+			return
+		}
+		cb, err := pkt.FirstCookie()
+		if err != nil {
+			return
+		}
+		var ec ntske.EncryptedServerCookie
+		if ec.Decode(cb) != nil {
+			return
+		}
+		key, ok := l.provider.Get(int(ec.ID))
+		if !ok || len(ec.Nonce) != 16 {
+			return
+		}
+		ents = append(ents, openEntry(key.Value, ec.Nonce, nil, true, ec.Ciphertext))
+		sc, err := ec.Decrypt(key.Value)
+		if err != nil {
+			return
+		}
+		pos := authPos(&pkt)
+		if keyOK(sc.C2S) && len(pkt.Auth.Nonce) == 16 && pos <= len(b) {
+			ents = append(ents, openEntry(sc.C2S, pkt.Auth.Nonce, b[:pos], false, pkt.Auth.CipherText))
+		}
+	}()
+	cur := l.provider.Current()
+	keys := lib.L(lib.L(lib.I(int64(cur.ID)), lib.B(cur.Value)))
+	replies := l.probe(b)
+	if l.lost {
+		return
+	}
+	replied, verified := 0, 0
+	if len(replies) > 0 {
+		replied = 1
+		// the reply must verify at the client: S2C key, identifier of the request
+		var uid []byte
+		for _, h := range hs {
+			if h.dir == 0 {
+				uid = h.uid
+				break
+			}
+		}
+		func() {
+			defer func() { recover() }()
+			var rp nts.Packet
+			var f ntske.Fetcher
+			if len(replies) == 1 && nts.DecodePacket(&rp, replies[0]) == nil &&
+				nts.ProcessResponse(replies[0], s2c, &f, &rp, uid) == nil && len(rp.Cookies) >= 1 {
+				verified = 1
+			}
+		}()
+	}
+	w.Case("srv.ip", tags, lib.V(HL(hs), lib.B(b), keys, tab(ents...)), lib.V(lib.I(int64(replied)), lib.I(int64(verified))))
+}
+
+func extraCases(r *lib.Rng, thorough bool) {
+	l := getLsn()
+	rounds := 2
+	if thorough {
+		rounds = 8
+	}
+	for round := 0; round < rounds && !l.lost; round++ {
+		cur := l.provider.Current()
+		s := &session{master: cur.Value, keyid: cur.ID, c2s: r.Bytes(32), s2c: r.Bytes(32), algo: 15}
+		if r.Intn(4) == 0 {
+			s.c2s, s.s2c = r.Bytes(64), r.Bytes(64)
+		}
+		n := 1 + r.Intn(8)
+		for i := 0; i < n; i++ {
+			s.pool = append(s.pool, s.freshCookie(r))
+		}
+		// another client of the same server
+		o := &session{master: cur.Value, keyid: cur.ID, c2s: r.Bytes(32), s2c: r.Bytes(32), algo: 15}
+		o.pool = append(o.pool, o.freshCookie(r))
+		mk := func(x *session) *honest {
+			uid := r.Bytes(32)
+			setTape(uid)
+			pkt, id := nts.NewRequestPacket(ntske.Data{C2sKey: x.c2s, S2cKey: x.s2c, Cookie: x.pool})
+			setTape()
+			var cs, phs [][]byte
+			for _, c := range pkt.Cookies {
+				cs = append(cs, c.Cookie)
+			}
+			for _, c := range pkt.CookiePlaceholders {
+				phs = append(phs, c.Cookie)
+			}
+			hdr := make([]byte, 48)
+			hdr[0] = 4<<3 | 3
+			copy(hdr[40:], r.Bytes(8))
+			nonce := r.Bytes(16)
+			out, fields, pos, ct := encodeCase("honest", hdr, id, cs, phs, pkt.Auth.Key, pkt.Auth.PlainText, nonce, false)
+			return &honest{b: out, pos: pos, nonce: nonce, ct: ct, key: x.c2s, dir: 0, uid: id, fields: fields}
+		}
+		q := mk(s)
+		oq := mk(o)
+		hs := []*honest{q, oq}
+		l.srvCase("nt,honest,complete", hs, q.b, s.s2c)
+		l.srvCase("nt,honest,complete", []*honest{oq, q}, oq.b, o.s2c)
+		// every field mutation, sampled bit flips, structure
+		every := 6
+		if thorough {
+			every = 2
+		}
+		for i := 0; i < len(q.b)*8; i++ {
+			if r.Intn(every) != 0 {
+				continue
+			}
+			c := clone(q.b)
+			c[i/8] ^= 1 << (i % 8)
+			l.srvCase(ntTag(q.region(i/8))+",bit", hs, c, s.s2c)
+		}
+		for fi, f := range q.fields {
+			for _, ty := range []uint16{0x104, 0x204, 0x304, 0x404, 0} {
+				if ty != f.typ {
+					l.srvCase("nt,mut,ftype", hs, put16(q.b, f.off, ty), s.s2c)
+				}
+			}
+			for _, ln := range []int{0, 3, 4, f.length - 4, f.length + 4, f.length + 1, 0xffff} {
+				if ln >= 0 && ln != f.length {
+					tg := "nt,mut,flen"
+					if fi == len(q.fields)-1 {
+						tg = "mut,authextlen"
+					}
+					l.srvCase(tg, hs, put16(q.b, f.off+2, uint16(ln)), s.s2c)
+				}
+			}
+		}
+		for _, nl := range []int{0, 15, 17, 32} {
+			l.srvCase("nt,mut,noncelen", hs, put16(q.b, q.pos+4, uint16(nl)), s.s2c)
+		}
+		for _, cl := range []int{0, 15, 17, 20, 32} {
+			l.srvCase("nt,mut,ctlen", hs, put16(q.b, q.pos+6, uint16(cl)), s.s2c)
+		}
+		// the cookie of the other client in this client's request, and vice versa: the
+		// authenticator was made with the other C2S key
+		if len(q.fields) >= 2 && len(oq.fields) >= 2 {
+			f, g := q.fields[1], oq.fields[1]
+			if f.length == g.length {
+				c := clone(q.b)
+				copy(c[f.off:f.off+f.length], oq.b[g.off:g.off+g.length])
+				l.srvCase("nt,history,cookieswap", hs, c, s.s2c)
+			}
+		}
+		// authenticated part of one request with the authenticator of the other
+		l.srvCase("nt,history,splice", hs, append(clone(q.b[:q.pos]), oq.b[oq.pos:]...), s.s2c)
+		l.srvCase("nt,history,splice", hs, append(clone(oq.b[:oq.pos]), q.b[q.pos:]...), s.s2c)
+		// key id of the cookie changed (no such key), truncations, trailing bytes
+		c := clone(q.b)
+		c[q.fields[1].off+4+4+1] ^= 0x40
+		l.srvCase("nt,mut,keyid", hs, c, s.s2c)
+		for _, cut := range []int{49, 76, q.pos, q.pos + 27, q.pos + 28, len(q.b) - 1, len(q.b) - 4} {
+			l.srvCase("nt,mut,trunc", hs, clone(q.b[:cut]), s.s2c)
+		}
+		l.srvCase("mut,tail,append", hs, append(clone(q.b), r.Bytes(8)...), s.s2c)
+		// a cookie sealed under a key the server does not have
+		bad := &session{master: r.Bytes(32), keyid: cur.ID, c2s: s.c2s, s2c: s.s2c, algo: 15}
+		bad.pool = append(bad.pool, bad.freshCookie(r))
+		bq := mk(bad)
+		l.srvCase("nt,wrongkey,cookie", []*honest{q}, bq.b, s.s2c)
+		// a well-formed request whose cookie names a key id the server does not have
+		// (sealed under the current key): provider.Get fails, no reply
+		ghost := &session{master: cur.Value, keyid: cur.ID + 7, c2s: r.Bytes(32), s2c: r.Bytes(32), algo: 15}
+		ghost.pool = append(ghost.pool, ghost.freshCookie(r))
+		gq := mk(ghost)
+		l.srvCase("nt,wrongkey,keyid", []*honest{q}, gq.b, ghost.s2c)
+		// a response handed to the server
+		p := s.response(r, q.uid, 1)
+		l.srvCase("nt,history,reflect", []*honest{q, p}, p.b, s.s2c)
+	}
+}
+
+func replayExtra(c [3]string) {
+	if c[0] != "srv.ip" {
+		return
+	}
+	// the listener has its own fresh server key: a recorded datagram cannot be
+	// replayed byte for byte; re-run the generator for this kind instead
+	if theLsn == nil {
+		extraCases(lib.NewRng(1), false)
+	}
+}
